@@ -39,7 +39,7 @@ struct World {
     trailers: bool,
 }
 
-fn any_world(with_errors: bool) -> World {
+fn any_world(with_errors: bool, max_frame_len: usize) -> World {
     let limit = if nd::any_bool() { Some(nd::any_u64()) } else { None };
     let header = if nd::any_bool() {
         let len = nd::u8_below(MAX_HEADER_LEN as u8 + 1) as usize;
@@ -61,7 +61,7 @@ fn any_world(with_errors: bool) -> World {
     let mut frames = [([0u8; MAX_FRAME_LEN], 0usize); MAX_FRAMES];
     let mut i = 0;
     while i < MAX_FRAMES {
-        let len = nd::u8_below(MAX_FRAME_LEN as u8 + 1) as usize;
+        let len = nd::u8_below(max_frame_len as u8 + 1) as usize;
         let mut j = 0;
         while j < MAX_FRAME_LEN {
             frames[i].0[j] = nd::any_u8();
@@ -184,16 +184,8 @@ fn run(w: &World) -> Result<BufferedBody, ExtractBufferedBodyError> {
     BufferedBody::extract(&head, body, lim)
 }
 
-// @tier quick
-// @obligation intact transport, any limit (or none), any Content-Length header (absent / any 0..=4 bytes, garbage included), any split of the body into <=3 frames: Ok(b) implies b is byte-identical to what was sent and, with a limit N, |b| <= N; every refusal is a SizeLimitExceeded error; with an absent or numeric Content-Length the request is refused only if the body is longer than N or the Content-Length is larger than N - a body of exactly N bytes is accepted; without a limit the body is always returned
-// @bounds <=3 data frames of <=3 bytes (+ optional trailers frame), limit any u64 or disabled, Content-Length value any <=4 bytes (second header before it or not)
-// @functions BufferedBody::extract, BufferedBody::_extract_with_limit, BodySizeLimit, SizeLimitExceeded, ExtractBufferedBodyError::from
-// @timeout 1500
-#[kani::proof]
-#[kani::unwind(12)]
-#[kani::stub(std::fmt::format, fmt_stub)]
-fn c14_intact_transport() {
-    let w = any_world(false);
+fn intact_transport(max_frame_len: usize) {
+    let w = any_world(false, max_frame_len);
     trace_world(&w);
     let (exp, total) = sent(&w);
     let cl = ref_content_length(&w);
@@ -217,20 +209,12 @@ fn c14_intact_transport() {
     kani::cover!(r.is_err() && cl.is_none() && w.limit.is_some(), "limit hit while reading, no usable Content-Length");
     kani::cover!(r.is_err() && w.limit.map_or(false, |n| cl.map_or(false, |c| c <= n)), "Content-Length understates the body");
     kani::cover!(r.is_err() && w.limit.map_or(false, |n| total as u64 <= n), "Content-Length overstates the body");
-    kani::cover!(r.is_ok() && w.limit.is_none() && total == 9, "no limit, longest body");
+    kani::cover!(r.is_ok() && w.limit.is_none() && total == MAX_FRAMES * max_frame_len, "no limit, longest body");
     std::mem::forget(r);
 }
 
-// @tier quick
-// @obligation failing transport (one frame replaced by an error): extraction never returns Ok (a truncated body is not "what the client sent")
-// @bounds as c14_intact_transport, error at any frame position
-// @functions BufferedBody::extract, BufferedBody::_extract_with_limit
-// @timeout 1500
-#[kani::proof]
-#[kani::unwind(12)]
-#[kani::stub(std::fmt::format, fmt_stub)]
-fn c14_failing_transport() {
-    let w = any_world(true);
+fn failing_transport(max_frame_len: usize) {
+    let w = any_world(true, max_frame_len);
     nd::assume(w.error_at < w.n);
     trace_world(&w);
     let cl = ref_content_length(&w);
@@ -239,6 +223,58 @@ fn c14_failing_transport() {
     kani::cover!(matches!(r, Err(ExtractBufferedBodyError::UnexpectedBufferError(_))), "transport error surfaced");
     kani::cover!(matches!(r, Err(ExtractBufferedBodyError::SizeLimitExceeded(_))) && cl.is_none(), "limit hit before the transport error");
     std::mem::forget(r);
+}
+
+// @tier quick
+// @obligation intact transport, any limit (or none), any Content-Length header (absent / any 0..=4 bytes, garbage included), any split of the body into <=3 frames: Ok(b) implies b is byte-identical to what was sent and, with a limit N, |b| <= N; every refusal is a SizeLimitExceeded error; with an absent or numeric Content-Length the request is refused only if the body is longer than N or the Content-Length is larger than N - a body of exactly N bytes is accepted; without a limit the body is always returned
+// @bounds <=3 data frames of <=2 bytes (+ optional trailers frame), limit any u64 or disabled, Content-Length value any <=4 bytes (second header before it or not)
+// @functions BufferedBody::extract, BufferedBody::_extract_with_limit, BodySizeLimit, SizeLimitExceeded, ExtractBufferedBodyError::from
+// @timeout 1500
+// @mem 28
+#[kani::proof]
+#[kani::unwind(8)]
+#[kani::stub(std::fmt::format, fmt_stub)]
+fn c14_intact_transport() {
+    intact_transport(2)
+}
+
+// @tier quick
+// @obligation failing transport (one frame replaced by an error): extraction never returns Ok (a truncated body is not "what the client sent")
+// @bounds frames as c14_intact_transport, error at any frame position
+// @functions BufferedBody::extract, BufferedBody::_extract_with_limit
+// @timeout 1500
+// @mem 28
+#[kani::proof]
+#[kani::unwind(8)]
+#[kani::stub(std::fmt::format, fmt_stub)]
+fn c14_failing_transport() {
+    failing_transport(2)
+}
+
+// @tier thorough
+// @obligation intact transport, any limit (or none), any Content-Length header (absent / any 0..=4 bytes, garbage included), any split of the body into <=3 frames: Ok(b) implies b is byte-identical to what was sent and, with a limit N, |b| <= N; every refusal is a SizeLimitExceeded error; with an absent or numeric Content-Length the request is refused only if the body is longer than N or the Content-Length is larger than N - a body of exactly N bytes is accepted; without a limit the body is always returned
+// @bounds <=3 data frames of <=3 bytes (+ optional trailers frame), limit any u64 or disabled, Content-Length value any <=4 bytes (second header before it or not)
+// @functions BufferedBody::extract, BufferedBody::_extract_with_limit, BodySizeLimit, SizeLimitExceeded, ExtractBufferedBodyError::from
+// @timeout 1500
+// @mem 28
+#[kani::proof]
+#[kani::unwind(11)]
+#[kani::stub(std::fmt::format, fmt_stub)]
+fn c14_intact_transport_3x3() {
+    intact_transport(3)
+}
+
+// @tier thorough
+// @obligation failing transport (one frame replaced by an error): extraction never returns Ok (a truncated body is not "what the client sent")
+// @bounds frames as c14_intact_transport_3x3, error at any frame position
+// @functions BufferedBody::extract, BufferedBody::_extract_with_limit
+// @timeout 1500
+// @mem 28
+#[kani::proof]
+#[kani::unwind(11)]
+#[kani::stub(std::fmt::format, fmt_stub)]
+fn c14_failing_transport_3x3() {
+    failing_transport(3)
 }
 
 fn fmt_stub(_a: std::fmt::Arguments<'_>) -> String {
@@ -253,4 +289,8 @@ mod native_search {
     fn c14_intact_transport() { nd::search("c14_intact_transport", super::c14_intact_transport, reset) }
     #[test]
     fn c14_failing_transport() { nd::search("c14_failing_transport", super::c14_failing_transport, reset) }
+    #[test]
+    fn c14_intact_transport_3x3() { nd::search("c14_intact_transport_3x3", super::c14_intact_transport_3x3, reset) }
+    #[test]
+    fn c14_failing_transport_3x3() { nd::search("c14_failing_transport_3x3", super::c14_failing_transport_3x3, reset) }
 }
